@@ -9,6 +9,7 @@ import (
 	"context"
 	"fmt"
 	"sort"
+	"time"
 
 	"github.com/Comcast/sheens/core"
 	"github.com/Comcast/sheens/match"
@@ -45,12 +46,19 @@ func timersStateReplaced(rec *fw.Rec) {
 		{"same-and-another", map[string]interface{}{"t0": entry("t0"), "t2": entry("t2")}, "captain"},
 		{"same-and-another", map[string]interface{}{"t0": entry("t0"), "t2": entry("t2")}, "direct"},
 	}
+	variants = append(variants,
+		variant{"deleted-and-created-again", nil, "captain"},
+		variant{"deleted-and-created-again", nil, "direct"},
+		variant{"a-timer-fires-after-a-refused-request", nil, "captain"})
 	for _, v := range variants {
 		func() {
 			ctx, cancel := context.WithCancel(context.Background())
 			defer cancel()
 			replay := map[string]interface{}{"scenario": "a timer t0 is pending; the state of the timers machine is replaced", "given_timers": v.Given, "via": v.Via}
-			c, _, err := siox.NewCrew(ctx, 50, 8, 8)
+			if v.Given == nil {
+				replay["scenario"] = v.Name
+			}
+			c, chans, err := siox.NewCrew(ctx, 50, 8, 8)
 			if err != nil {
 				rec.Inconclusive("crew: " + err.Error())
 				return
@@ -77,7 +85,79 @@ func timersStateReplaced(rec *fw.Rec) {
 				return
 			}
 			state := map[string]interface{}{"node": "start", "bs": map[string]interface{}{"timers": fw.Plain(v.Given)}}
-			if v.Via == "captain" {
+			if v.Name == "a-timer-fires-after-a-refused-request" {
+				// a short timer, a request the timers machine refuses (it keeps the reason), the
+				// timer's firing (taken from the crew's input, where it waits to be processed): the
+				// whole state of the timers machine is compared
+				if !step(map[string]interface{}{"to": "timers", "makeTimer": map[string]interface{}{"id": "quick", "in": "150ms", "msg": map[string]interface{}{"to": "nobody", "timer": "quick"}}}) {
+					return
+				}
+				if !step(map[string]interface{}{"to": "timers", "makeTimer": map[string]interface{}{"id": "bad", "in": "soon", "msg": map[string]interface{}{"to": "nobody"}}}) {
+					return
+				}
+				select {
+				case f := <-chans.In:
+					if !step(f) {
+						return
+					}
+				case <-time.After(30 * time.Second):
+					rec.Inconclusive("timers-state scenario: the short timer did not fire within 30 s")
+					return
+				}
+				rec.Eval(1)
+				live := c.Machines[sio.TimersMachine]
+				e := shadow[sio.TimersMachine]
+				if live == nil || live.State == nil || e == nil {
+					rec.Inconclusive("timers-state scenario: no timers machine (or no report for it)")
+					return
+				}
+				plainState := func(st *core.State) string {
+					if st == nil {
+						return "none"
+					}
+					bs, _ := fw.Plain(map[string]interface{}(st.Bs)).(map[string]interface{})
+					if tm, ok := bs["timers"].(map[string]interface{}); ok {
+						ids := map[string]interface{}{}
+						for id := range tm {
+							ids[id] = true
+						}
+						bs["timers"] = ids
+					}
+					node := st.NodeName
+					if node == "" {
+						node = "start"
+					}
+					return node + "/" + fw.Canon(bs)
+				}
+				if got, want := plainState(e.State), plainState(live.State); got != want {
+					rec.Violation("C15:timers-machine-state-after-a-firing-differs-from-store", fmt.Sprintf("after a timer fired, the crew's timers machine is at %s; a store built from the reported changes has it at %s", want, got), replay)
+					return
+				}
+				rec.Bucket("timers_machine_compared_after_a_firing")
+				return
+			}
+			if v.Name == "deleted-and-created-again" {
+				if !step(map[string]interface{}{"to": "captain", "delete": []interface{}{sio.TimersMachine}}) {
+					return
+				}
+				if v.Via == "captain" {
+					if !step(map[string]interface{}{"to": "captain", "update": map[string]interface{}{sio.TimersMachine: map[string]interface{}{}}}) {
+						return
+					}
+				} else {
+					var serr error
+					if rec.Guard("C15:timers-state", replay, func() { serr = c.SetMachine(ctx, sio.TimersMachine, nil, nil) }) {
+						return
+					}
+					if serr != nil {
+						rec.Inconclusive("timers-state scenario: SetMachine: " + serr.Error())
+						return
+					}
+					if !step(map[string]interface{}{"to": "nobody", "uid": "flush"}) {
+						return
+					}
+				}
+			} else if v.Via == "captain" {
 				if !step(map[string]interface{}{"to": "captain", "update": map[string]interface{}{sio.TimersMachine: map[string]interface{}{"state": state}}}) {
 					return
 				}
